@@ -18,7 +18,7 @@ RULE = ('quick/thorough: EVERY non-decreasing spike-sample train of length <= L 
         'cluster-id list order (a permutation of gappy ids - small ones or, every fifth case, sparse ids up to 100000 - plus one id without spikes) rotating '
         'deterministically; plus seeded random long trains checked by a windowed pair count. '
         'cluster dtypes int64/int32/uint32/uint16 and integer or float time arrays rotate; float32 time arrays beyond sample 2**24 on an exactly representable grid; firing_rate with count products beyond 2**31. Each case checks one-sided counts (twice), the symmetrised array (4 relations), cluster_ids=None, '
-        'and firing_rate. non-trivial = distinct (train, labels, params, id order) that has equal '
+        'and firing_rate. Also: every bin size of 1..300 samples (thorough: ..2500) with lags that are exact multiples of the bin; call histories in one process (id lists of different dtypes with equal bytes; >= 2**16-entry results held and written to by the caller across later calls of the same shape). non-trivial = distinct (train, labels, params, id order) that has equal '
         'times or a pair exactly in the last bin of the window AND an id list that is not sorted.')
 EXHAUSTIVE = {'quick': True, 'thorough': True}
 EXHAUSTIVE_SCOPE = {'quick': 'trains L<=5 on grid 0..4 (see rule); random long trains are sampled',
@@ -85,6 +85,16 @@ def run_shard(desc, ctx):
                       'half': 2, 'rate': 30000.0, 'perm': [1, 0], 'unused_pos': j % 3, 'windowed': False, 'f32': True}, ctx)
     if desc['shard'] < 3:
         run_case({'kind': 'firing_rate_big', 'counts': [[1200, 50000, 0, 3], [46341, 46341], [70000, 1, 2]][desc['shard']]}, ctx)
+    # every bin size up to B with lags that are exact multiples of the bin (incl. the first lag outside the window)
+    B = 300 if desc['L'] <= 5 else 2500
+    for b in range(1, B + 1):
+        if b % desc['n'] == desc['shard']:
+            run_case({'kind': 'bin_multiples', 'bin': b, 'half': 1 + b % 4, 'rate': RATES[b % 3]}, ctx)
+    # histories of calls in one process: id lists of different dtypes with equal bytes; large results kept by the
+    # caller (and written to) across later calls of the same shape
+    for j in range(12):
+        if j % desc['n'] == desc['shard']:
+            run_case({'kind': 'call_history', 'variant': j, 'seed': [desc['seed'], j]}, ctx)
     # random long trains
     rng = np.random.default_rng([desc['seed'], desc['shard'], 15])
     for r in range(desc['nrand'] // desc['n'] + 1):
@@ -98,6 +108,91 @@ def run_shard(desc, ctx):
                 'rate': RATES[int(rng.integers(0, 3))], 'perm': rng.permutation(k).tolist(),
                 'unused_pos': int(rng.integers(0, k + 1)), 'windowed': True, 'bigids': bool(rng.integers(0, 2))}
         run_case(case, ctx)
+
+
+def _bin_multiples(case, ctx):
+    from phylib.stats.ccg import correlograms
+    b, h, rate = case['bin'], case['half'], case['rate']
+    # lags 0, b, 2b, ..., (h+1)b between spikes of alternating clusters, plus lags one sample short of a multiple
+    samples = np.array(sorted([m * b for m in range(h + 2)] + [m * b - 1 for m in range(1, h + 2)] + [0]), dtype=np.int64)
+    labels = (np.arange(len(samples)) % 2).astype(np.int64)
+    exp = ref.one_sided(samples.tolist(), labels.tolist(), 2, b, h)
+    ctx.count(1, key=hkey('binmult', b, h, rate), nontrivial=True, cell=('bin_multiples', 'half%d' % h))
+    r = call(correlograms, samples / rate, np.array([4, 2])[labels], cluster_ids=[4, 2], sample_rate=rate,
+             bin_size=b / rate, window_size=2 * h * b / rate, symmetrize=False)
+    if not r.ok:
+        ctx.violation('raised', case, 'correlograms raised %r' % r.exc, {'bin_multiples': True}, tb=r.tb)
+        return
+    d = same(r.value, exp, dtype=False)
+    if d:
+        ctx.violation('one_sided_count_mismatch', case, 'lags that are exact multiples of a %d-sample bin: %s' % (b, d), {'bin_multiples': True})
+
+
+def _call_history(case, ctx):
+    from phylib.stats.ccg import correlograms, firing_rate
+    v = case['variant']
+    rng = np.random.default_rng(case['seed'])
+    ctx.count(1, key=hkey('hist', v), nontrivial=True, cell=('call_history', 'v%d' % (v % 2)))
+    if v % 2 == 0:
+        # (i) two calls whose id lists are different arrays with the same bytes: [c] as int64 / [c, 0] as int32 (and int32 / int16)
+        c = [5, 3, 300, 41, 7, 1][v // 2 % 6]
+        wide, narrow = [('int64', 'int32'), ('int32', 'int16'), ('uint32', 'uint16')][v // 2 % 3]
+        ids_a = np.array([c], dtype=wide)
+        ids_b = np.frombuffer(ids_a.tobytes(), dtype=narrow).copy()      # [c, 0]
+        n = 40
+        samples = np.cumsum(rng.integers(0, 3, size=n)).astype(np.int64)
+        sc_a = np.full(n, c, dtype=np.int64)
+        sc_b = np.where(rng.random(n) < 0.5, c, 0).astype(np.int64)
+        calls = [(ids_a, sc_a), (ids_b, sc_b), (ids_a.tolist(), sc_a), (ids_b, sc_b), (ids_a, sc_a)]
+        for step, (ids, sc) in enumerate(calls):
+            idl = [int(x) for x in (ids.tolist() if hasattr(ids, 'tolist') else ids)]
+            pos = np.array([idl.index(int(x)) for x in sc.tolist()])
+            exp = ref.one_sided(samples.tolist(), pos.tolist(), len(idl), 1, 2)
+            r = call(correlograms, samples.astype(np.float64), sc, cluster_ids=ids, sample_rate=1., bin_size=1., window_size=4., symmetrize=False)
+            d = ('raised %r' % r.exc) if not r.ok else same(r.value, exp, dtype=False)
+            if d:
+                ctx.violation('one_sided_count_mismatch', dict(case, step=step), 'call %d of a sequence with id lists %r (%s) / %r (%s): %s' % (
+                    step, ids_a.tolist(), wide, ids_b.tolist(), narrow, d), {'history': 'aliasing_id_lists'}, tb=r.tb)
+                return
+            r = call(firing_rate, sc, cluster_ids=ids, bin_size=1., duration=10.)
+            cnt = np.array([(sc == i).sum() for i in idl], dtype=np.float64)
+            d = ('raised %r' % r.exc) if not r.ok else same(r.value, np.outer(cnt, cnt) * 0.1, dtype=False, rtol=1e-12)
+            if d:
+                ctx.violation('firing_rate_mismatch', dict(case, step=step), 'call %d of a sequence with byte-equal id lists: %s' % (step, d),
+                              {'history': 'aliasing_id_lists'}, tb=r.tb)
+                return
+    else:
+        # (ii) large results (>= 2**16 entries) kept by the caller across later calls of the same shape; the caller
+        # also writes into a result it owns
+        nid, h = 40, 50
+        ids = (np.arange(nid) * 3 + 1).tolist()
+        held = []
+        for step in range(3):
+            n = 60
+            samples = np.cumsum(rng.integers(0, 4, size=n)).astype(np.int64)
+            pos = rng.integers(0, 4, size=n) * (step + 1)
+            sc = np.array(ids)[pos]
+            exp = ref.one_sided_windowed(samples, pos, nid, 1, h)
+            sym = (v // 2 + step) % 3 == 2
+            r = call(correlograms, samples.astype(np.float64), sc, cluster_ids=ids, sample_rate=1., bin_size=1., window_size=2. * h, symmetrize=sym)
+            if not r.ok:
+                ctx.violation('raised', dict(case, step=step), 'correlograms raised %r' % r.exc, {'history': 'held_results'}, tb=r.tb)
+                return
+            e = ref.symmetrized(exp) if sym else exp
+            d = same(r.value, e, dtype=False)
+            if d:
+                ctx.violation('symmetrised_mismatch' if sym else 'one_sided_count_mismatch', dict(case, step=step),
+                              'call %d (same shape as earlier calls): %s' % (step, d), {'history': 'held_results'})
+                return
+            for (st0, arr, e0) in held:
+                if same(arr, e0, dtype=False):
+                    ctx.violation('earlier_result_changed', dict(case, step=step), 'the result returned by call %d changed during call %d: %s' % (
+                        st0, step, same(arr, e0, dtype=False)), {'history': 'held_results'})
+                    return
+            if step == 1 and r.value.flags.writeable:
+                r.value[...] = 7                 # the caller's own array
+                e = np.full_like(e, 7)
+            held.append((step, r.value, e))
 
 
 def run_case(case, ctx):
@@ -117,6 +212,10 @@ def run_case(case, ctx):
             if d:
                 ctx.violation('firing_rate_mismatch', case, 'large counts: ' + d, {'big': True})
         return
+    if case.get('kind') == 'bin_multiples':
+        return _bin_multiples(case, ctx)
+    if case.get('kind') == 'call_history':
+        return _call_history(case, ctx)
     samples = np.asarray(case['samples'], dtype=np.int64)
     labels = np.asarray(case['labels'], dtype=np.int64)
     k, b, h, rate = case['k'], case['bin'], case['half'], case['rate']
